@@ -1425,6 +1425,22 @@ Definition apply_prim (p : prim) (args : sx) : M sx :=
       end
   | PProbe => ret Nil
   | PHostBox => ret (Any None)
+  | PHostOpt =>
+      (* fn host_opt(a: i64, b: Option<i64>, rest: TulispObject) *)
+      '(a, r1) <- req args ;; x <- lift (as_int a) ;;
+      '(b, r2) <- opt r1 ;;
+      y <- match b with
+           | None => ret Nil
+           | Some bv => z <- lift (as_int bv) ;; ret (Int z)
+           end ;;
+      rest <- arg_rest true r2 ;;
+      ret (of_list [Int x; y; rest] Nil)
+  | PHostConv =>
+      (* fn host_conv(s: String, f: f64, flag: bool) -> String *)
+      '(a, r1) <- req args ;; s <- lift (to_str a) ;;
+      '(b, r2) <- req r1 ;; f <- lift (try_float b) ;;
+      '(c, _) <- req r2 ;;
+      ret (Str (s ++ [124%N] ++ print_Z f ++ [124%N] ++ (if truthy c then s2t "true" else s2t "false")))
   | PHostAdd =>
       '(a, r1) <- req args ;; x <- lift (as_int a) ;;
       '(b, _) <- req r1 ;; y <- lift (as_int b) ;;
